@@ -4,7 +4,7 @@
    2^(depth+1)+1 for EVERY integrand (1-D) and its square (2-D).  (That the pinned algorithm is symmetric in its endpoints,
    so that reversing the interval does NOT negate the result, is finding F5c: Findings/C12_adaptive_reverse.v.)
    The proofs below do not depend on whether the panel value carries |b - a| or (b - a): they are stated for a <= b. *)
-From Coq Require Import Reals QArith ZArith List Bool Lra Lia.
+From Coq Require Import Reals QArith ZArith List Bool Lra Lia FunctionalExtensionality.
 From Coquelicot Require Import Coquelicot.
 From SpdVerif Require Import Base.NumOps Gen.Integration Model.Quadrature Proofs.C12_base Proofs.C12_simpson Proofs.C12_rule.
 Import ListNotations.
@@ -224,4 +224,56 @@ Proof.
   symmetry. unfold delta. apply pair_eq; cbn [vsub vadd Rops fst snd RtoC].
   - rewrite !S3_fst by lra. cbn [fst]. field.
   - rewrite !S3_snd by lra. cbn [snd]. field.
+Qed.
+
+(* ------------------------------------------------------------------ 2-D adaptive Simpson on a product of cubics *)
+Lemma cpeval_scale : forall (z : C) (cs : list C) (y : R),
+  Cmult z (cpeval Rops cs y) = cpeval Rops (map (Cmult z) cs) y.
+Proof.
+  intros z cs y. induction cs as [|c cs IH]; cbn [map cpeval].
+  - unfold vzero. cbn [vmk Rops s_of_Z]. destruct z. unfold Cmult. cbn [fst snd]. f_equal; ring.
+  - rewrite <- IH. destruct z as [zr zi], c as [cr ci], (cpeval Rops cs y) as [pr pi_].
+    unfold Cmult. cbn [vadd vscale Rops fst snd]. f_equal; ring.
+Qed.
+
+Lemma cpint_scale : forall (z : C) (cs : list C) (a b : R),
+  cpint Rops (map (Cmult z) cs) a b = Cmult z (cpint Rops cs a b).
+Proof.
+  intros z cs a b. unfold cpint, cprim.
+  assert (G : forall k, cprim_from Rops k (map (Cmult z) cs) = map (Cmult z) (cprim_from Rops k cs)).
+  { induction cs as [|c cs IH]; intros k; cbn [map cprim_from]; [reflexivity|]. rewrite IH.
+    apply (f_equal2 (@cons C)); [|reflexivity].
+    destruct z, c. unfold Cmult. cbn [vdiv Rops fst snd]. apply pair_eq; cbn [fst snd]; unfold Rdiv; ring. }
+  rewrite G.
+  replace (vzero Rops :: map (Cmult z) (cprim_from Rops 1 cs)) with (map (Cmult z) (vzero Rops :: cprim_from Rops 1 cs)).
+  2:{ cbn [map]. apply (f_equal2 (@cons C)); [|reflexivity].
+      unfold vzero. cbn [vmk Rops s_of_Z]. destruct z. unfold Cmult. cbn [fst snd]. apply pair_eq; cbn [fst snd]; ring. }
+  rewrite <- !cpeval_scale.
+  destruct z, (cpeval Rops (vzero Rops :: cprim_from Rops 1 cs) b), (cpeval Rops (vzero Rops :: cprim_from Rops 1 cs) a).
+  unfold Cmult. cbn [vsub Rops fst snd]. f_equal; ring.
+Qed.
+
+Theorem simpson_adaptive_2d_bicubic_exact : forall (cp cq : list C) (ax bx ay by_ eps : R) d,
+  ax <= bx -> ay <= by_ -> (length cp <= 4)%nat -> (length cq <= 4)%nat ->
+  simpson_adaptive_2d Rops (fun x y => Cmult (cpeval Rops cp x) (cpeval Rops cq y)) ax bx ay by_ eps d =
+  Cmult (cpint Rops cp ax bx) (cpint Rops cq ay by_).
+Proof.
+  intros cp cq ax bx ay by_ eps d Hx Hy Hp Hq. unfold simpson_adaptive_2d. cbv beta.
+  (* inner integral: for every x the integrand is the cubic (p x) * q in y *)
+  assert (Hin : (fun x : R => simpson_adaptive Rops (fun y : R => Cmult (cpeval Rops cp x) (cpeval Rops cq y)) ay by_ eps d) =
+                (fun x : R => cpeval Rops (map (fun c => Cmult c (cpint Rops cq ay by_)) cp) x)).
+  { apply functional_extensionality. intros x.
+    replace (fun y : R => Cmult (cpeval Rops cp x) (cpeval Rops cq y)) with (cpeval Rops (map (Cmult (cpeval Rops cp x)) cq))
+      by (apply functional_extensionality; intros y; symmetry; apply cpeval_scale).
+    rewrite simpson_adaptive_cubic_exact by (try assumption; rewrite map_length; exact Hq).
+    rewrite cpint_scale.
+    (* (p x) * Iq = sum_k (c_k * Iq) x^k *)
+    set (Iq := cpint Rops cq ay by_). clear. induction cp as [|c cp IH]; cbn [map cpeval].
+    - unfold vzero. cbn [vmk Rops s_of_Z]. destruct Iq. unfold Cmult. cbn [fst snd]. f_equal; ring.
+    - rewrite <- IH. destruct c as [cr ci], Iq as [qr qi], (cpeval Rops cp x) as [pr pi_].
+      unfold Cmult. cbn [vadd vscale Rops fst snd]. f_equal; ring. }
+  change (Sc Rops) with R. rewrite Hin. rewrite simpson_adaptive_cubic_exact by (try assumption; rewrite map_length; exact Hp).
+  set (Iq := cpint Rops cq ay by_).
+  replace (map (fun c : C => Cmult c Iq) cp) with (map (Cmult Iq) cp) by (apply map_ext; intros c; apply Cmult_comm).
+  rewrite cpint_scale. apply Cmult_comm.
 Qed.
